@@ -21,6 +21,41 @@ theorem applyWrap_clean {w : Option Cls} {v v' : Val} {c : Bool} (h : applyWrap 
       simp only [Except.ok.injEq] at hw
       exact ⟨by rw [← h1, ← hw], h2⟩
 
+theorem evalPy_of_clean_ite (env : Env) (c a b : Expr) (w : Option Cls) (v : Val)
+    (ihc : ∀ v, evalW env c = .ok (v, true) → evalPy env c = .ok v)
+    (iha : ∀ v, evalW env a = .ok (v, true) → evalPy env a = .ok v)
+    (ihb : ∀ v, evalW env b = .ok (v, true) → evalPy env b = .ok v)
+    (h : evalW env (.ite c a b w) = .ok (v, true)) : evalPy env (.ite c a b w) = .ok v := by
+  simp only [evalW] at h
+  cases hc : evalW env c with
+  | error e => simp [hc] at h
+  | ok pc =>
+    obtain ⟨vc, c0⟩ := pc
+    simp only [hc] at h
+    by_cases ht : truthy vc
+    · simp only [ht, if_true] at h
+      cases ha : evalW env a with
+      | error e => simp [ha] at h
+      | ok pa =>
+        obtain ⟨va, c1⟩ := pa
+        simp only [ha] at h
+        have hcl := applyWrap_clean h
+        simp only [Bool.and_eq_true] at hcl
+        obtain ⟨hv, hc0, hc1⟩ := hcl
+        subst hc0 hc1
+        simp [evalPy, ihc vc hc, iha va ha, ht, hv]
+    · simp only [ht, Bool.false_eq_true, if_false] at h
+      cases hb : evalW env b with
+      | error e => simp [hb] at h
+      | ok pb =>
+        obtain ⟨vb, c2⟩ := pb
+        simp only [hb] at h
+        have hcl := applyWrap_clean h
+        simp only [Bool.and_eq_true] at hcl
+        obtain ⟨hv, hc0, hc2⟩ := hcl
+        subst hc0 hc2
+        simp [evalPy, ihc vc hc, ihb vb hb, ht, hv]
+
 theorem evalPy_of_clean (env : Env) : ∀ (e : Expr) (v : Val), evalW env e = .ok (v, true) → evalPy env e = .ok v
   | .lit c w, v, h => by
     simp only [evalW] at h
@@ -145,6 +180,9 @@ theorem evalPy_of_clean (env : Env) : ∀ (e : Expr) (v : Val), evalW env e = .o
       obtain ⟨hv, hc1⟩ := hc
       subst hc1
       simp [evalPy, evalPy_of_clean env e a he, hv]
+  | .ite c a b w, v, h =>
+    evalPy_of_clean_ite env c a b w v (fun v h => evalPy_of_clean env c v h) (fun v h => evalPy_of_clean env a v h)
+      (fun v h => evalPy_of_clean env b v h) h
 
 theorem evalPy_stripWrap (env : Env) (e : Expr) : evalPy env (stripWrap e) = evalPy env e := by
   cases e <;> simp [stripWrap, evalPy]
